@@ -242,7 +242,9 @@ class Metadata(CbMixin, ProgMixin):
         self.meta_version = info.get("meta version", 1)
         self.pieces = info.get("pieces", bytes())
         if self.meta_version == 2:
-            self._parse_tree(info["file tree"], [self.name])
+            # a single file torrent is the file itself, not a directory
+            partials = [] if "length" in info else [self.name]
+            self._parse_tree(info["file tree"], partials)
         elif "length" in info:
             self.length += info["length"]
             self.is_file = True
@@ -320,7 +322,7 @@ class Metadata(CbMixin, ProgMixin):
         for key, val in tree.items():
             if "" in val:
                 self.filenames.add(key)
-                path = Path(os.path.join(*partials))
+                path = Path(*partials)
                 full = Path(os.path.join(path, key))
                 length = val[""]["length"]
                 root = val[""].get("pieces root")
